@@ -18,6 +18,8 @@ import (
 type C16Case struct {
 	// E2E, when set, is an end-to-end case (the built binary, exit statuses; see c16_e2e_test.go)
 	E2E       *C16E2E     `json:"e2e,omitempty"`
+	// Cut, when set, is a listing-cut case (see c16_cut_test.go)
+	Cut *C16Cut `json:"cut,omitempty"`
 	Now       int64       `json:"now"`
 	Cmd       string      `json:"cmd"` // view view-raw diff copy sum sum-copy sum-diff generate
 	Files     []TreeFile  `json:"files"`
@@ -39,6 +41,9 @@ type C16Case struct {
 func runC16(c C16Case, ev *Evid) (fs []Finding) {
 	if c.E2E != nil {
 		return runC16E2E(*c.E2E, ev)
+	}
+	if c.Cut != nil {
+		return runC16Cut(*c.Cut, ev)
 	}
 	add := func(key, format string, args ...interface{}) {
 		fs = append(fs, Finding{Property: "C16", Key: key, Detail: fmt.Sprintf(format, args...)})
@@ -486,6 +491,14 @@ func genC16(t *rapid.T) C16Case {
 		}
 		return C16Case{E2E: &e}
 	}
+	if rapid.IntRange(0, 79).Draw(t, "listingCut") == 0 {
+		l := genCLILayout(t)
+		if l.FileSize() > 1<<16 {
+			l = Layout{Archives: []Arch{{Step: 1, Points: 60}, {Step: 60, Points: 60}}, Method: 1, XFF: 0.5}
+		}
+		n := rapid.IntRange(2, 6).Draw(t, "cutNames")
+		return C16Case{Cut: &C16Cut{L: l, Now: genNowRealistic(t, l), Cmd: rapid.SampledFrom([]string{"copy", "diff", "sum"}).Draw(t, "cutCmd"), Names: n, Keep: rapid.IntRange(1, n-1).Draw(t, "cutKeep")}}
+	}
 	l := genCLILayout(t)
 	now := genNowRealistic(t, l)
 	c := C16Case{Now: now, ArchiveID: -1}
@@ -576,6 +589,7 @@ func genC16(t *rapid.T) C16Case {
 }
 
 func TestC16(t *testing.T) {
+	defer cleanupServerRoot()
 	RunProperty(t, Property[C16Case]{
 		NoteCases:   true,
 		ID:          "C16",
@@ -588,6 +602,9 @@ func TestC16(t *testing.T) {
 			return []C16Case{
 				{E2E: &C16E2E{L: Layout{Archives: []Arch{{Step: 1, Points: 120}, {Step: 60, Points: 60}}, Method: 1, XFF: 0.5}, V: []F64{1, 2.5, -3}, Differ: 7.25}},
 				{E2E: &C16E2E{L: Layout{Archives: []Arch{{Step: 10, Points: 360}}, Method: 2, XFF: 0}, V: []F64{42}, Differ: -1}},
+				{Cut: &C16Cut{L: Layout{Archives: []Arch{{Step: 1, Points: 60}}, Method: 1, XFF: 0.5}, Now: 1500000000, Cmd: "copy", Names: 4, Keep: 2}},
+				{Cut: &C16Cut{L: Layout{Archives: []Arch{{Step: 1, Points: 60}}, Method: 1, XFF: 0.5}, Now: 1500000000, Cmd: "diff", Names: 3, Keep: 1}},
+				{Cut: &C16Cut{L: Layout{Archives: []Arch{{Step: 1, Points: 60}}, Method: 1, XFF: 0.5}, Now: 1500000000, Cmd: "sum", Names: 3, Keep: 1}},
 			}
 		},
 	})
